@@ -4,6 +4,8 @@ import (
 	"bytes"
 	"fmt"
 
+	"github.com/xinchentechnote/fin-proto-go/codec"
+
 	"verif/internal/val"
 )
 
@@ -11,7 +13,10 @@ func init() { Registry["C11"] = c11 }
 
 func c11(e *Env) {
 	r := e.R
-	r.Rule("every type × canonical values (as C01, incl. non-empty lists, long prefixed texts, every registered union member at least once) × EVERY cut position k in 0..len-1 of the valid image (images longer than 4 KiB: token boundaries ±1 — all of them up to a budget of 16 MB of decoded bytes per image, evenly thinned beyond — plus 256 random offsets). distinct_nontrivial = distinct (image hash) with at least one cut")
+	if isAbsentChild(e) {
+		codec.Clear()
+	}
+	r.Rule("every type × canonical values (as C01, incl. non-empty lists, long prefixed texts, every registered union member at least once; a prefixed text is sometimes an earlier case's text plus a suffix, and each complete image is decoded before its prefixes are tried) × EVERY cut position k in 0..len-1 of the valid image (images longer than 4 KiB: token boundaries ±1 — all of them up to a budget of 16 MB of decoded bytes per image, evenly thinned beyond — plus 256 random offsets). distinct_nontrivial = distinct (image hash) with at least one cut")
 	r.Explain("Oracle: Decode(image[:k]) into a fresh receiver returns a non-nil error and does not panic. Soundness: with C07 (exact consumption) a decoder that accepted image[:k] would have consumed at most k < len bytes on the full image too, so a correct tree cannot accept a strict prefix; types whose image is empty contribute no cuts.")
 	types := e.Types()
 	n := e.N(40, 600)
@@ -23,8 +28,10 @@ func c11(e *Env) {
 		lf := map[string]int{}
 		var evals int64
 		cs := e.caseOpts(t, n, 1, false, e.Thorough)
+		mem := []string{}
 		for ci, o := range cs {
 			g := e.Gen(o, t.QName, ci)
+			g.Mem = &mem
 			v := g.Value(t)
 			w, err, p := EncodeFresh(val.Clone(v))
 			if err != nil || p != nil {
@@ -35,6 +42,12 @@ func c11(e *Env) {
 				lf["images-with-no-cut(empty encoding)"]++
 				continue
 			}
+			// the complete image first: it must decode (and whatever a decoder remembers across messages is now primed)
+			if err, p := LibDecode(e.C.New[t.QName](), bytes.NewBuffer(append([]byte(nil), w...))); err != nil || p != nil {
+				lf["skipped:full-image-does-not-decode(C01)"]++
+				continue
+			}
+			evals++
 			var cuts []int
 			if len(w) <= 4096 {
 				for k := 0; k < len(w); k++ {
@@ -100,5 +113,8 @@ func c11(e *Env) {
 	})
 	_ = empty
 	r.Set("observations", acc.m)
+	if !isAbsentChild(e) {
+		runAbsentChild(e) // a strict prefix is a strict prefix whether or not a checksum service is registered
+	}
 	_ = fmt.Sprint
 }
